@@ -115,18 +115,26 @@ class GenericContextProvider(RoleProvider):
                     # use "regular" way to update via transaction manager
                     self._logger.info('update %s, handle=%s', proposed_st.NODETYPE.localname, proposed_st.Handle)
                     # handle changed ContextAssociation
+                    # (versions and times are set in the state that is written to the mdib; the proposed values
+                    # of these members are not copied, see skipped_properties below)
                     if (
                         old_state_container.ContextAssociation == pm_types.ContextAssociation.ASSOCIATED
                         and proposed_st.ContextAssociation != pm_types.ContextAssociation.ASSOCIATED
                     ):
-                        proposed_st.UnbindingMdibVersion = mgr.new_mdib_version
-                        proposed_st.BindingEndTime = time.time()
+                        old_state_container.UnbindingMdibVersion = mgr.new_mdib_version
+                        old_state_container.BindingEndTime = time.time()
+                        # an associated context can only become disassociated (not "No" or "Pre" again)
+                        proposed_st.ContextAssociation = pm_types.ContextAssociation.DISASSOCIATED
                     elif (
                         old_state_container.ContextAssociation != pm_types.ContextAssociation.ASSOCIATED
                         and proposed_st.ContextAssociation == pm_types.ContextAssociation.ASSOCIATED
                     ):
-                        proposed_st.BindingMdibVersion = mgr.new_mdib_version
-                        proposed_st.BindingStartTime = time.time()
+                        old_state_container.BindingMdibVersion = mgr.new_mdib_version
+                        old_state_container.BindingStartTime = time.time()
+                        # a new association period starts: forget the end of an earlier one, so that the
+                        # next disassociation sets the unbinding version and end time of this period
+                        old_state_container.UnbindingMdibVersion = None
+                        old_state_container.BindingEndTime = None
                         handles = self._mdib.xtra.disassociate_all(
                             entity,
                             unbinding_mdib_version=mgr.new_mdib_version,
